@@ -229,6 +229,36 @@ def corpus_cases():
 
 
 # ---------------------------------------------------------------------------------------------
+# which variant of the source is this?  (original / with the confirmation step of
+# proposed_fixes/converged-inaccurate.diff).  Fail closed: anything else is a broken obligation.
+MODEL_SLACK = 3
+
+
+def source_variant():
+    """-> (fixed: bool, problem: str | None)"""
+    import ast
+    src = (common.REPO / "emu_base/math/krylov_exp.py").read_text()
+    fn = next((n for n in ast.parse(src).body if isinstance(n, ast.FunctionDef) and n.name == "krylov_exp_impl"), None)
+    if fn is None:
+        return False, "krylov_exp_impl not found"
+    tests = [ast.unparse(n.test) for n in ast.walk(fn) if isinstance(n, ast.If)]
+    n_conv = tests.count("err < exp_tolerance")
+    n_bd = tests.count("n2 < norm_tolerance")
+    confirm = [t for t in tests if "confirmed" in t]
+    names = {n.id for n in ast.walk(fn) if isinstance(n, ast.Name)}
+    n_ops = sum(1 for n in ast.walk(fn) if isinstance(n, ast.Call) and ast.unparse(n.func) == "op")
+    if n_bd != 1:
+        return False, f"expected one `if n2 < norm_tolerance`, found {n_bd}"
+    if "confirmed" not in names:
+        if n_conv == 1 and n_ops == 1:
+            return False, None
+        return False, f"unrecognised shape: {n_conv} convergence tests, {n_ops} op calls"
+    if n_conv == 2 and n_ops == 2 and confirm == [f"not confirmed < {MODEL_SLACK} * exp_tolerance"]:
+        return True, None
+    return True, f"unrecognised confirmation step: tests={tests}, op calls={n_ops} (model has SLACK={MODEL_SLACK})"
+
+
+# ---------------------------------------------------------------------------------------------
 # running the real code with interposition (module-level names only, restored afterwards)
 class _Proxy:
     def __init__(self, target, **over):
@@ -307,8 +337,9 @@ def real_run(case, A=None, v=None):
     T = log["T"]
     n_it = len(log["op_out"])
     out["n_op_calls"] = n_it
-    n2s, e1s, e2s = [], [], []
+    n2s, e1s, e2s, e2cs = [], [], [], []
     ext = [(sz, e) for (sz, e) in log["mexp"]]
+    n_it = out["iters"] if out["exc"] is None else n_it   # the k-th op call is op(v_k) in both variants
     for j in range(n_it):
         n = log["op_out"][j].norm()
         n2s.append(float(T[j + 1, j].real) if T is not None else float("nan"))
@@ -317,18 +348,23 @@ def real_run(case, A=None, v=None):
         if e is None:
             e1s.append(float("nan"))
             e2s.append(float("nan"))
+            e2cs.append(float("nan"))
         else:
             e1s.append(float(abs(e[j + 1, 0])))
             e2s.append(float(abs(e[j + 2, 0] * n)))
-    out.update(n2s=n2s, e1s=e1s, e2s=e2s, log=log, A=A, v=v)
+            # fixed variant: the confirmation applied op to v_{j+1}: that is op call number j + 1
+            nxt = log["op_out"][j + 1].norm() if j + 1 < len(log["op_out"]) else None
+            e2cs.append(float(abs(e[j + 2, 0] * nxt)) if nxt is not None else float("nan"))
+    out.update(n2s=n2s, e1s=e1s, e2s=e2s, e2cs=e2cs, log=log, A=A, v=v)
     return out
 
 
-def control_expr(case, run):
+def control_expr(case, run, fixed):
     fl = common.float_lit
     lst = lambda xs: "[" + "; ".join(fl(x) for x in xs) + "]"
-    args = (f"float_arith (stream nan {lst(run['n2s'])}) (stream nan {lst(run['e1s'])}) "
-            f"(stream nan {lst(run['e2s'])}) {fl(case['norm_tol'])} {fl(case['exp_tol'])} {case['max_dim']}")
+    args = (f"float_arith {'true' if fixed else 'false'} (stream nan {lst(run['n2s'])}) (stream nan {lst(run['e1s'])}) "
+            f"(stream nan {lst(run['e2s'])}) (stream nan {lst(run['e2cs'])}) "
+            f"{fl(case['norm_tol'])} {fl(case['exp_tol'])} {case['max_dim']}")
     return f"(outcome (kexp_impl {args}), outcome (kexp_public {args}))"
 
 
@@ -361,7 +397,7 @@ def rebuilt_error(run, ref):
     try:
         m = run["iters"]
         T = run["log"]["T"].numpy()
-        V = [x.numpy().reshape(-1) for x in run["log"]["op_in"]]
+        V = [x.numpy().reshape(-1) for x in run["log"]["op_in"]][:m]
         if run["happy"]:
             size = m
         else:
@@ -432,7 +468,7 @@ def property_check(ctx, case, run, stats):
 
 # ---------------------------------------------------------------------------------------------
 # numeric correspondence of the full model (complex binary64, dimension <= 6)
-def full_expr(case, run):
+def full_expr(case, run, fixed):
     fl = common.float_lit
     cx = lambda z: f"({fl(float(z.real))}, {fl(float(z.imag))})"
     vec = lambda xs: "[" + "; ".join(cx(complex(x)) for x in xs) + "]"
@@ -443,7 +479,7 @@ def full_expr(case, run):
         tab[sz] = e[:, 0].numpy()          # later calls of the same size win (see Model: lookup)
     tabs = "[" + "; ".join(f"({sz}%nat, {vec(col)})" for sz, col in sorted(tab.items())) + "]"
     b = "true" if case["herm_flag"] else "false"
-    return (f"CF.kexp_float {M} {vec(v)} {b} {fl(case['exp_tol'])} {fl(case['norm_tol'])} "
+    return (f"CF.kexp_float {'true' if fixed else 'false'} {M} {vec(v)} {b} {fl(case['exp_tol'])} {fl(case['norm_tol'])} "
             f"{case['max_dim']} {tabs}")
 
 
@@ -456,7 +492,12 @@ def full_compare(case, run, parsed):
     # a continued iteration whose n2 is rounding noise (Krylov space exhausted but n2 >= norm_tol, or
     # non-finite data) normalises noise: the next vectors are not comparable across summation orders
     cont = run["n2s"][:-1] if run.get("happy") else run["n2s"]
-    if any((not math.isfinite(x)) or x < 1e-6 * max(1e-300, case["anorm"]) for x in cont):
+    amp, sc = 1.0, max(1e-300, case["anorm"])
+    for x in cont:
+        if not math.isfinite(x) or x <= 0:
+            return True, "", True
+        amp *= max(1.0, sc / x)      # w / n2 amplifies the rounding error of w by |A| / n2
+    if 1e-16 * amp > 1e-11:
         return True, "", True
     if impl != model:
         # a decision within 1e-9 relative of its threshold may legitimately flip (summation order)
@@ -499,6 +540,11 @@ def run(ctx):
     model_ok = rc == 0
     common.standard_proof_stage(ctx, "C07", ["Properties/C07.vo"])
 
+    fixed, problem = source_variant()
+    ctx.obligation("source-variant:krylov_exp_impl is the original or the confirmed-estimate variant the model knows",
+                   problem is None, problem or "", kind="translator")
+    ctx.extra["source_variant"] = "fixed (confirmation step, SLACK=3)" if fixed else "original"
+
     cases = list(corpus_cases())
     n_op, n_small, n_mal = ctx.n(110, 2200), ctx.n(40, 300), ctx.n(30, 200)
     cases += [gen_case(ctx.rng) for _ in range(n_op)]
@@ -532,7 +578,7 @@ def run(ctx):
         try:
             ev = common.CoqEval("C07", HEADER)
             for c, r in zip(cases, runs):
-                ev.add(control_expr(c, r))
+                ev.add(control_expr(c, r, fixed))
             outs = ev.run()
             for c, r, o in zip(cases, runs, outs):
                 m = parse(o)     # Coq prints ((a, b), c) as (a, b, c)
@@ -542,7 +588,9 @@ def run(ctx):
                 ctx.count_case({k: c[k] for k in ("kind", "cls", "spectrum", "dim", "anorm", "exp_tol",
                                                   "norm_tol", "max_dim", "herm_flag", "seed")} |
                                {"outcome": str(i[0]), "op_calls": r["n_op_calls"]}, nontrivial)
-                consistent = (r["exc"] is not None) or (r["n_op_calls"] == r["iters"])
+                # operator applications: one per iteration (+ the final confirmation in the fixed variant)
+                consistent = (r["exc"] is not None) or (r["n_op_calls"] == r["iters"]) or \
+                    (fixed and r["n_op_calls"] == r["iters"] + 1)
                 if (m != i or not consistent) and corr_ok:
                     corr_ok = False
                     detail = f"case={c} impl={i} model={m} op_calls={r['n_op_calls']}"
@@ -562,7 +610,7 @@ def run(ctx):
             sel = sel[: ctx.n(60, 400)]
             ev = common.CoqEval("C07full", HEADER)
             for c, r in sel:
-                ev.add(full_expr(c, r))
+                ev.add(full_expr(c, r, fixed))
             outs = ev.run(shard=60)
             worst = ""
             for (c, r), o in zip(sel, outs):
